@@ -345,3 +345,116 @@ impl Area for Dp {
         run_bytes(c.i0, &render(&c))
     }
 }
+
+// ---------------------------------------------------------------------------------------------
+/// C04 (chunking): `DltMessageIterator` over `LowMarkBufReader` over a scripted short-read source with the
+/// production low mark, compared with the model's parse of the whole byte string.
+pub struct Lw;
+
+/// the low mark the library tells its callers to use (self-test of the check: VERIF_LOWMARK overrides it)
+fn lw_low_mark() -> usize {
+    std::env::var("VERIF_LOWMARK").ok().and_then(|v| v.parse().ok()).unwrap_or(adlt::dlt::DLT_MIN_PARSE_BUFFER_SIZE)
+}
+
+fn gen_lw(rng: &mut Rng, tier: u32) -> String {
+    let serial = rng.chance(4);
+    let mut items: Vec<Item> = vec![];
+    let target = match rng.below(4) {
+        0 => 2_000,
+        1 => 70_000,
+        _ => 70_000 + rng.below(if tier > 0 { 400_000 } else { 150_000 }) as usize,
+    };
+    let mut total = 0usize;
+    let trap = rng.chance(3); // maximum-size messages with an embedded marker followed by non-marker bytes
+    // directed: a maximum-size message with an embedded marker at the very start, non-marker bytes after it, and a first
+    // read that delivers exactly the message (+0..3 bytes): the window then ends where the parser wants to look ahead
+    let exact = trap && !serial && rng.chance(2);
+    let mut first_read = 0usize;
+    if exact {
+        let mut it = gen_msg(rng, serial, true, false, 0, true);
+        if let Item::M { ref mut payload, ref add, .. } = it {
+            payload.resize(65535 - 4 - add.len(), 7);
+            let at = 20 + rng.below(200) as usize;
+            payload[at..at + 4].copy_from_slice(b"DLT\x01");
+        }
+        first_read = item_bytes(serial, &it).len() + rng.below(4) as usize;
+        total += item_bytes(serial, &it).len();
+        items.push(it);
+        let g = 4 + rng.below(30) as usize;
+        items.push(Item::G((0..g).map(|_| marker_free_byte(rng)).collect()));
+        total += g;
+    }
+    while total < target {
+        if rng.chance(12) {
+            let g = 1 + rng.below(40) as usize;
+            let it = Item::G((0..g).map(|_| marker_free_byte(rng)).collect());
+            total += g;
+            items.push(it);
+        }
+        let huge = rng.chance(if trap { 6 } else { 25 });
+        let t = if rng.chance(8) { 1 } else { 0 };
+        let mut it = gen_msg(rng, serial, true, false, t, huge);
+        if huge && trap {
+            if let Item::M { ref mut payload, .. } = it {
+                if payload.len() > 400 {
+                    let at = 20 + rng.below(200) as usize;
+                    let pat: &[u8] = if serial { b"DLS\x01" } else { b"DLT\x01" };
+                    payload[at..at + 4].copy_from_slice(pat);
+                }
+            }
+        }
+        total += item_bytes(serial, &it).len();
+        items.push(it);
+        if huge && trap && rng.chance(2) {
+            let g = 4 + rng.below(30) as usize;
+            items.push(Item::G((0..g).map(|_| marker_free_byte(rng)).collect()));
+            total += g;
+        }
+    }
+    let low = lw_low_mark();
+    let cap = low + 4096 + match rng.below(3) {
+        0 => 0,
+        1 => rng.below(5000) as usize,
+        _ => 512 * 1024 - low - 4096,
+    };
+    let nsched = rng.below(60) as usize;
+    let sizes: Vec<usize> = (0..nsched)
+        .map(|_| match rng.below(7) {
+            0 => 1,
+            1 => 1 + rng.below(10) as usize,
+            2 => 4096,
+            3 => 65551,
+            4 => 65555,
+            5 => 1 + rng.below(70_000) as usize,
+            _ => 1 + rng.below(300) as usize,
+        })
+        .collect();
+    let mut sizes = sizes;
+    if first_read > 0 {
+        sizes.insert(0, first_read);
+    }
+    let c = Case { i0: rng.below(1000) as u32, serial, big: false, items };
+    format!("{} {} | {}", cap, sizes.iter().map(|s| s.to_string()).collect::<Vec<_>>().join(" "), fmt_case(&c))
+}
+
+impl Area for Lw {
+    fn gen(&self, rng: &mut Rng, tier: u32) -> String {
+        gen_lw(rng, tier)
+    }
+    fn run(&self, case: &str) -> String {
+        let (cfg, dpcase) = case.split_once(" | ").unwrap();
+        let nums: Vec<usize> = cfg.split_whitespace().map(|x| x.parse().unwrap()).collect();
+        let c = parse_case(dpcase);
+        let data = render(&c);
+        let src = crate::lm::Chunked { data, pos: 0, sizes: nums[1..].to_vec(), i: 0 };
+        let r = adlt::utils::LowMarkBufReader::new(src, nums[0], lw_low_mark());
+        let mut it = DltMessageIterator::new(c.i0, r);
+        let mut strs = vec![];
+        while let Some(m) = it.next() {
+            // payloads are long: index, times, header bytes, payload length and a hash of the payload
+            let h = m.payload.iter().fold(7u64, |h, x| (h * 31 + *x as u64 + 1) % 4294967291);
+            strs.push(format!("{},{},{},{},{},{},{},{}", m.index, m.reception_time_us, hex(m.ecu.as_buf()), m.timestamp_dms, m.standard_header.htyp, m.standard_header.len, m.payload.len(), h));
+        }
+        format!("{} | {} {} {} {} {}", strs.join(" "), it.index, it.bytes_processed, it.bytes_skipped, it.detected_storage_header as u8, it.detected_serial_header as u8)
+    }
+}
